@@ -48,7 +48,16 @@ def gen_case(rng):
         terms[()] = rng.choice([-3, 2, 0.5])
     if kind == "dict" and labels and rng.random() < 0.2:
         terms[(labels[0], labels[0])] = rng.choice([-1, 2])          # raw dict with a repeated label
+    zero_label = None
+    if kind == "dict" and rng.random() < 0.2:
+        # a plain dict may hold zero coefficients: the label is mentioned, so it is one of the model's variables
+        zero_label = [l for l in pool if l not in labels][0]
+        labels = labels + [zero_label]
+        terms[(zero_label,)] = 0
+    stale = kind != "dict" and rng.random() < 0.25      # model objects: bookkeeping left stale by a cancelled term
     vk = rng.choice(["true", "true", "true", "false", "label", "atmost", "parity"])
+    if stale:
+        vk = "true"
     varg = []
     if vk == "label":
         if not labels:
@@ -60,7 +69,7 @@ def gen_case(rng):
     if via_method and vk not in ("true",):
         vk, varg = "true", []          # the methods use the model's own is_solution_valid
     return {"spin": spin, "kind": kind, "fn": fn, "labels": labels, "terms": terms, "valid_kind": vk, "valid_arg": varg,
-            "all": rng.random() < 0.5}
+            "all": rng.random() < 0.5, "stale": stale}
 
 
 def exhaustive_cases(polys):
@@ -100,7 +109,14 @@ def run_case(case, cid):
             return l if isinstance(l, int) and not isinstance(l, bool) else -7
         return names.get((type(l).__name__, l), "?%r" % (l,))
     model = classes[case["kind"]](case["terms"])
+    if case.get("stale"):
+        # a term over one more label comes and goes (the caches keep the label), and a key arrives unsorted
+        extra = 7 if matrix else "__stale"
+        lo = labels[0] if labels else extra
+        model[(extra, lo) if lo != extra else (extra,)] += 1
+        model[(lo, extra) if lo != extra else (extra,)] -= 1
     before = copy.deepcopy(model)
+    state_before = deep_state(model)
     vk, varg = case["valid_kind"], case["valid_arg"]
 
     def valid(sol):
@@ -116,15 +132,28 @@ def run_case(case, cid):
         return len(ons) % 2 == 0
     rec = {"id": cid, "spin": spin, "kind": case["kind"], "fn": case["fn"] or "method", "model": [], "K": [], "den": 1,
            "valid_kind": vk, "valid_arg": [nm(a) if vk == "label" else a for a in varg], "all": case["all"], "obj": [], "sols": [],
-           "raised": "", "unchanged": True}
-    try:
+           "raised": "", "unchanged": True, "second_same": True}
+
+    def call():
         with warnings.catch_warnings():
             warnings.simplefilter("ignore")
             if case["fn"]:
-                obj, sol = getattr(utils, case["fn"])(model, case["all"], valid)
-            else:
-                sol = model.solve_bruteforce(case["all"])
-                obj = None
+                return getattr(utils, case["fn"])(model, case["all"], valid)
+            return None, model.solve_bruteforce(case["all"])
+    try:
+        obj, sol = call()
+        first = copy.deepcopy((obj, sol))
+        # what the caller does with a result is the caller's business: a later call must not see it
+        try:
+            for s in (sol if case["all"] else [sol]):
+                if isinstance(s, dict):
+                    s["__poked__"] = 5
+            if isinstance(sol, list):
+                sol.append({"__poked__": 1})
+        except Exception:       # noqa
+            pass
+        obj, sol = call()
+        rec["second_same"] = bool(first == (obj, sol))
         terms = [(tuple(k), v) for k, v in dict.items(before)]
         fr = [common.frac(v) for _, v in terms]
         sols = sol if case["all"] else [sol]
@@ -147,12 +176,27 @@ def run_case(case, cid):
                             all(v in ((1, -1) if spin else (0, 1)) for v in s.values())] for s in sols]
             if not all(s[2] for s in rec["sols"]):
                 rec["raised"] = "BadValue: a solution value outside the domain"
-        rec["unchanged"] = (model == before) and type(model) is type(before)
+        rec["unchanged"] = (model == before) and type(model) is type(before) and deep_state(model) == state_before
     except common.Inexact as e:
         rec["raised"] = "Inexact: %s" % e
     except Exception as e:                  # noqa
         rec["raised"] = type(e).__name__ + ": " + str(e)[:100]
     return rec
+
+
+def deep_state(model):
+    """everything observable about a model object that a solver has no business changing"""
+    if type(model) is dict:
+        return sorted(map(repr, model.items()))         # (the order of a dict is not part of its value)
+    st = {"items": sorted(map(repr, dict.items(model))), "variables": sorted(map(repr, model.variables)), "degree": model.degree,
+          "nvars": model.num_binary_variables}
+    for attr in ("mapping", "reverse_mapping", "max_index", "num_ancillas", "constraints", "name"):
+        try:
+            v = getattr(model, attr)
+            st[attr] = repr(sorted(v.items(), key=repr)) if isinstance(v, dict) else repr(v)
+        except AttributeError:
+            pass
+    return st
 
 
 def describe(case):
